@@ -663,6 +663,35 @@ pub fn check_c17(input: &str, stats: &mut Stats, rng: &mut Rng, exhaustive_budge
         }
     }
 
+    // (c') the span-less receiver interface (`EventReceiver`, adapted by the library) gets the same events
+    {
+        struct Plain(Vec<SEv>, usize);
+        impl<'i> saphyr_parser::EventReceiver<'i> for Plain {
+            fn on_event(&mut self, ev: saphyr_parser::Event<'i>) {
+                if self.0.len() < self.1 {
+                    self.0.push(sev(&ev));
+                }
+            }
+        }
+        let r = catch(|| {
+            let mut rec = Plain(vec![], safety_cap(input));
+            let res = Parser::new_from_str(input).load(&mut rec, true);
+            (rec.0, res.err().map(|e| serr(&e)))
+        });
+        if let Ok((evs, err)) = r {
+            stats.cnt("spanless_push_comparisons", 1);
+            let want: Vec<SEv> = plain.events.iter().map(|e| e.0.clone()).collect();
+            if !plain.capped && (evs != want || err != plain.error) {
+                viol(
+                    stats,
+                    "C17/push-vs-pull/spanless-receiver".into(),
+                    format!("an EventReceiver got {} events / error {:?}; the iterator gives {} events / error {:?}", evs.len(), err.map(|e| e.display), want.len(), plain.error.as_ref().map(|e| e.display.clone())),
+                    case_json(input, vec![]),
+                );
+            }
+        }
+    }
+
     // (d) repeated load(multi = false)
     let single = catch(|| {
         let mut p = Parser::new_from_str(input);
